@@ -174,6 +174,20 @@ func genJunk(r *hx.Rand) string {
 	if r.Chance(1, 20) {
 		b = nil
 	}
+	if r.Chance(1, 8) { // quoting: whole, unbalanced, empty, lone quote
+		switch r.Intn(5) {
+		case 0:
+			return "\"" + string(b) + "\""
+		case 1:
+			return "\"" + string(b)
+		case 2:
+			return string(b) + "\""
+		case 3:
+			return "\""
+		default:
+			return "\"\""
+		}
+	}
 	return string(b)
 }
 
